@@ -16,9 +16,6 @@ theorem toCTs_kidsToJs : ∀ ts : List CT, JL.toCTs (CT.kidsToJs ts) = some ts
   | t :: ts => by simp [CT.kidsToJs, JL.toCTs, toCT_toJ t, toCTs_kidsToJs ts]
 end
 
-/-- the decoder reading the stream value by value -/
-def decodeStream (s : List Char) : Option (List J) := parseLines (s.length + 1) s
-
 theorem encodeRoot_ne_nil (t : CT) (r : List Char) : encodeRoot t ++ r ≠ [] := by
   simp [encodeRoot]
 
@@ -50,14 +47,6 @@ theorem parseLines_encodeRoots : ∀ (ts : List CT) (fuel : Nat), ts.length < fu
 end Gtree.Json
 
 namespace Gtree.Json
-
-/-- read every decoded value as a tree -/
-def readAll : List J → Option (List CT)
-  | [] => some []
-  | j :: js =>
-    match j.toCT, readAll js with
-    | some t, some ts => some (t :: ts)
-    | _, _ => none
 
 theorem readAll_map_toJ : ∀ ts : List CT, readAll (ts.map CT.toJ) = some ts
   | [] => rfl
